@@ -37,8 +37,8 @@ INVARIANTS {invs}
 CHECK_DEADLOCK FALSE
 """
 
-INV_STRICT = "TypeOK NoRace MutexOK NoNilMeta NoDeadlock Isolated HeldCoversRequired EmitVec EmitOut OutcomeKnown"
-INV_STRICT3 = "NoRace NoNilMeta NoDeadlock Isolated HeldCoversRequired EmitVec EmitOut OutcomeKnown"
+INV_STRICT = "TypeOK NoRace MutexOK NoNilMeta NoDeadlock Isolated HeldCoversRequired CallsOutUnlocked EmitVec EmitOut OutcomeKnown"
+INV_STRICT3 = "NoRace NoNilMeta NoDeadlock Isolated HeldCoversRequired CallsOutUnlocked EmitVec EmitOut OutcomeKnown"
 INV_K = "TypeOK NoRaceExceptDev MutexOK NoNilMeta NoDeadlock HeldCoversRequired EmitOut OutcomeKnown EmitRaces"
 TRIPLE = ["dog", "stray", "anydog", "pet"]
 TRIPLE3 = ["dog", "stray", "anydog"]
